@@ -2,7 +2,6 @@
 package jsonSubProto
 
 import (
-	"bytes"
 	"encoding/json"
 	"fmt"
 	"io/ioutil"
@@ -69,7 +68,7 @@ func (j *jsonSubProto) Pack(m erpc.Message) error {
 		m.Status(true).QueryString(),
 		m.Meta().QueryString(),
 		m.BodyCodec(),
-		bytes.Replace(bodyBytes, []byte{'"'}, []byte{'\\', '"'}, -1),
+		escapeBody(bodyBytes),
 		xferPipeIDsBytes,
 	)
 
@@ -122,4 +121,23 @@ func (j *jsonSubProto) Unpack(m erpc.Message) error {
 	// unmarshal new body
 	err = m.UnmarshalBody(bodyBytes)
 	return err
+}
+
+// escapeBody escapes the body bytes for the inside of a JSON string: the backslash and the
+// double quote are backslash-escaped and control characters are written as \u00XX (a raw
+// control character makes the reader cut the string short); all other bytes are kept as is.
+func escapeBody(b []byte) []byte {
+	const hex = "0123456789abcdef"
+	out := make([]byte, 0, len(b)+len(b)/8+2)
+	for _, c := range b {
+		switch {
+		case c == '\\' || c == '"':
+			out = append(out, '\\', c)
+		case c < ' ':
+			out = append(out, '\\', 'u', '0', '0', hex[c>>4], hex[c&0xf])
+		default:
+			out = append(out, c)
+		}
+	}
+	return out
 }
